@@ -129,6 +129,10 @@ func (in *interp) global(g *ssa.Global) *value {
 		if _, ok := deref(g.Type()).Underlying().(*types.Interface); ok {
 			name := g.Pkg.Pkg.Path() + "." + g.Name()
 			cell = iface{t: in.eng.opaqueType(name), v: in.opaqueObj(name)}
+		} else {
+			// reported in the evidence (stubs): a variable of a package whose initialiser is not
+			// executed starts as the zero value
+			in.stubsSeen["zero-global:"+g.Pkg.Pkg.Path()+"."+g.Name()]++
 		}
 	}
 	p := &cell
